@@ -140,7 +140,10 @@ func judgeMap(res uint16, evs []tev) {
 
 type nullLogger struct{ n int }
 
-func (l *nullLogger) Printf(format string, vals ...interface{}) { l.n++ }
+func (l *nullLogger) Printf(format string, vals ...interface{}) {
+	// built as a real logger would build it (String methods run), thrown away
+	l.n += len(fmt.Sprintf(format, vals...))
+}
 
 func judgeMapStyle(res uint16, evs []tev, style int) {
 	bstyle := style
